@@ -145,6 +145,14 @@ def BOUNDED(tier, seed):
             def get_data(self):
                 self.log.append(('read', len(self._storage_x)))
                 return super().get_data()
+        # the very first call with update_storage=False: nothing is stored (the storage stays empty)
+        st0 = Spy()
+        ex0 = cls(_Model(['a', 'b']), _loss, ['a', 'b'], storage=st0, smoothing_alpha=0.5)
+        evals += 1
+        distinct.add((cname, 'storage', 'first_call_no_update'))
+        ex0.explain_one(*_stream(['a', 'b'], rng, 1)[0], update_storage=False)
+        if any(e[0] == 'update' for e in st0.log) or len(st0) != 0:
+            fail(f'storage_order_{cname}', f"{cname}: explain_one(update_storage=False) on an empty storage stored the observation")
         for upd in (True, False):
             st = Spy()
             m = _Model(['a', 'b'])
